@@ -24,6 +24,16 @@ type zzModel struct {
 	refund uint64
 	tval   common.Hash // transient storage of account 0, slot 1
 	inAL   [zzAccounts]bool
+	st     [zzAccounts]common.Hash // storage slot 1: current value
+	cst    [zzAccounts]common.Hash // ... and its value at the start of the transaction
+	newC   [zzAccounts]bool        // contract created in this transaction (EIP-6780)
+}
+
+var zzSlotKey = common.Hash{31: 1}
+
+func zzHashVal() (h common.Hash) {
+	h[31] = zzNondetU8()
+	return
 }
 
 func zzWord() uint256.Int { return uint256.Int{zzNondetU64(), zzNondetU64(), 0, 0} }
@@ -46,7 +56,12 @@ func zzNewState() (*StateDB, [zzAccounts]common.Address, zzModel) {
 		m.bal[i], m.nonce[i] = zzWord(), zzNondetU64()
 		b := m.bal[i]
 		acct := &types.StateAccount{Nonce: m.nonce[i], Balance: &b, Root: types.EmptyRootHash, CodeHash: types.EmptyCodeHash[:]}
-		s.stateObjects[addrs[i]] = newObject(s, addrs[i], acct)
+		obj := newObject(s, addrs[i], acct)
+		// slot 1 was already read in this block: its committed value is cached (no database access)
+		m.st[i] = zzHashVal()
+		m.cst[i] = m.st[i]
+		obj.originStorage[zzSlotKey] = m.st[i]
+		s.stateObjects[addrs[i]] = obj
 	}
 	return s, addrs, m
 }
@@ -62,13 +77,19 @@ func zzReads(s *StateDB, addrs [zzAccounts]common.Address, m *zzModel) {
 		zzAssert(s.GetNonce(a) == m.nonce[i], "nonce read equals the model")
 		zzAssert(s.AddressInAccessList(a) == m.inAL[i], "access-list membership equals the model")
 	}
+	for i, a := range addrs {
+		zzAssert(s.GetState(a, zzSlotKey) == m.st[i], "storage read equals the model")
+		zzAssert(s.GetCommittedState(a, zzSlotKey) == m.cst[i], "committed storage read is the value at the start of the transaction")
+		zzAssert(s.IsNewContract(a) == m.newC[i], "created-in-this-transaction flag equals the model")
+	}
 	zzAssert(s.GetRefund() == m.refund, "refund counter equals the model")
 	zzAssert(s.GetTransientState(addrs[0], common.Hash{31: 1}) == m.tval, "transient storage read equals the model")
 }
 
 // zzScript runs K symbolic operations (with nested snapshots and reverts) on the real
 // StateDB and on the model, checking every read after every step.
-func zzScript(s *StateDB, addrs [zzAccounts]common.Address, m *zzModel, K int) {
+func zzScript(s *StateDB, addrs [zzAccounts]common.Address, m *zzModel, K int) (txStart zzModel) {
+	txStart = *m
 	type snap struct {
 		id int
 		m  zzModel
@@ -77,7 +98,7 @@ func zzScript(s *StateDB, addrs [zzAccounts]common.Address, m *zzModel, K int) {
 	for step := 0; step < K; step++ {
 		i := 0
 		op := zzChoice(zzBound("MENU")) // quick tiers use the first few operations only
-		if op <= 1 || op == 4 || op == 5 || op == 8 {
+		if op <= 1 || op == 4 || op == 5 || op == 8 || op == 9 || op == 10 {
 			i = zzChoice(zzAccounts)
 		}
 		switch op {
@@ -119,20 +140,46 @@ func zzScript(s *StateDB, addrs [zzAccounts]common.Address, m *zzModel, K int) {
 			v[31] = zzNondetU8()
 			s.SetTransientState(addrs[0], common.Hash{31: 1}, v)
 			m.tval = v
-		default:
+		case 8:
 			s.AddAddressToAccessList(addrs[i])
 			m.inAL[i] = true
+		case 9:
+			v := zzHashVal()
+			prev := s.SetState(addrs[i], zzSlotKey, v)
+			zzAssert(prev == m.st[i], "SetState hands back the previous value")
+			m.st[i] = v
+		case 10:
+			// contract deployment as evm.create performs it from Spurious Dragon on: the creation
+			// flag is set together with the nonce bump (CreateContract alone journals no tracked
+			// account mutation, so finalisation would not visit the account)
+			s.CreateContract(addrs[i])
+			s.SetNonce(addrs[i], 1, tracing.NonceChangeNewContract)
+			m.newC[i] = true
+			m.nonce[i] = 1
+		default:
+			// transaction boundary (pre-Amsterdam rules): the journal is closed, storage written in
+			// the transaction becomes the committed view of the next one, creation flags expire
+			zzAssume(m.nonce[0] != 0 && m.nonce[1] != 0) // no account is empty (removal of empty accounts is C15's subject)
+			s.Finalise(params.Rules{IsEIP158: true})
+			snaps = nil
+			m.refund = 0
+			for k := range addrs {
+				m.cst[k] = m.st[k]
+				m.newC[k] = false
+			}
+			txStart = *m
+			zzReach("boundary")
 		}
 		zzReads(s, addrs, m)
 	}
+	return txStart
 }
 
 // C13: reads under nested snapshots/reverts equal the reference model, and the journal's
 // per-account bookkeeping mirrors the live entries.
 func zzH_C13_journal() {
 	s, addrs, m := zzNewState()
-	m0 := m
-	zzScript(s, addrs, &m, zzBound("K"))
+	m0 := zzScript(s, addrs, &m, zzBound("K")) // the model at the start of the current transaction
 	// per-account mutation counts = number of live journal entries of that account and kind
 	for i, a := range addrs {
 		var want journalMutationCounts
@@ -168,8 +215,7 @@ func zzH_C13_journal() {
 // with the end values - nothing for reverted or net-zero changes.
 func zzH_C15_net_changes() {
 	s, addrs, m := zzNewState()
-	m0 := m
-	zzScript(s, addrs, &m, zzBound("K"))
+	m0 := zzScript(s, addrs, &m, zzBound("K")) // the model at the start of the current transaction
 	// the real end-of-transaction step (Amsterdam rules, EIP-158 on): finalises or removes every
 	// touched account, records its net changes and hands back the transaction's access list
 	list := s.finaliseAmsterdam(params.Rules{IsEIP158: true, IsAmsterdam: true})
